@@ -369,9 +369,31 @@ impl FileSpec {
                 }
             })
             .collect::<Vec<PathBuf>>();
-        log_files.sort_unstable();
-        log_files.reverse();
+        // newest first: order by the infixes, independent of the suffix
+        // (which would otherwise compete with a ".restart-<number>" part of the infix)
+        log_files.sort_unstable_by(|a, b| {
+            self.name_without_suffix(b)
+                .cmp(&self.name_without_suffix(a))
+                .then_with(|| b.cmp(a))
+        });
         log_files
+    }
+
+    // the file name without ".gz" and without the configured suffix
+    fn name_without_suffix(&self, path: &Path) -> String {
+        let mut name = path
+            .file_name()
+            .map(|f| f.to_string_lossy().to_string())
+            .unwrap_or_default();
+        if name.ends_with(".gz") {
+            name.truncate(name.len() - 3);
+        }
+        if let Some(suffix) = &self.o_suffix {
+            if name.ends_with(suffix) && name[..name.len() - suffix.len()].ends_with('.') {
+                name.truncate(name.len() - suffix.len() - 1);
+            }
+        }
+        name
     }
 
     pub(crate) fn filter_files(
